@@ -19,6 +19,7 @@ import parse_common as PC
 CID = "C02"
 VO = ["props/C02.vo"] + PC.VO_MODEL
 E_RENDER = 20
+E_RENDER_CF = 21      # compact time + dot/comma fraction (coq/parse/ParseSpec2.v)
 TZ_SETTINGS = ["UTC", "EST5EDT", "GMT0BST"]
 
 DFORMS = ["DNone", "DIso", "DCompact", "DSlashYMD", "DUS", "DEU", "DEUDot", "DMonDY", "DMonthDY", "DDMonY",
@@ -49,6 +50,9 @@ def all_templates():
 
 
 def tpl_name(t):
+    if t[0] == "cf":
+        _, sp, k, cm, o = t
+        return "DCompact/%s/TCompactFrac%d%s/%s" % ("JSpace" if sp else "JT", k, "," if cm else ".", OFORMS[o])
     kd, d, j, tf, k, fl, o = t
     if kd == 1:
         return "ctime"
@@ -84,6 +88,8 @@ YEAR_AS_NUMBER = {"DMonDY", "DMonthDY", "DDMonY", "DDMonthY"}
 
 
 def year_as_number(t):
+    if t[0] == "cf":
+        return False
     return t[0] in (1, 2) or DFORMS[t[1]] in YEAR_AS_NUMBER
 
 
@@ -229,6 +235,30 @@ def main():
                 o["dayfirst"], o["yearfirst"] = bool(dayf), bool(yearf)
             else:
                 o["info_dayfirst"], o["info_yearfirst"] = bool(dayf), bool(yearf)
+            cases.append((o, s, t, dt, off, exp_dt, exp_off, tzname))
+            wf_templates.add(tpl_name(t))
+        # compact time with a dot / comma fraction (+ every offset form)
+        cf_reqs, cf_meta = [], []
+        for sp in (0, 1):
+            for k in (1, 2, 3, 6, 7, 9):
+                for cm in (0, 1):
+                    for ofm in range(len(OFORMS)):
+                        n = max(2, per_tpl // 2) if tzname == "UTC" else 1
+                        for _ in range(n):
+                            dt = PC.gen_dt(r)
+                            off = gen_off(r)
+                            cf_reqs.append((E_RENDER_CF, [sp, k, cm, ofm] + list(dt) + list(off)))
+                            cf_meta.append((("cf", sp, k, cm, ofm), dt, off))
+        for (t, dt, off), rr in zip(cf_meta, orc.call_many(cf_reqs)):
+            if not isinstance(rr, list) or rr[0] != 1:
+                stats["not_wf_skipped"] += 1
+                continue
+            n = rr[1]
+            s = "".join(map(chr, rr[2:2 + n]))
+            exp_dt = tuple(rr[2 + n:9 + n])
+            exp_off = rr[10 + n] if rr[9 + n] else None
+            o = PC.default_opts()
+            o["default"] = r.choice([(2003, 9, 25, 0, 0, 0, 0), (2001, 3, 30, 12, 34, 56, 789)])
             cases.append((o, s, t, dt, off, exp_dt, exp_off, tzname))
             wf_templates.add(tpl_name(t))
         model = PC.run_model(orc, [(c[0], c[1]) for c in cases])
